@@ -24,7 +24,7 @@ use futures::StreamExt;
 use leptos::prelude::*;
 use leptos_router::{
     components::{FlatRoutes, Outlet, ParentRoute, Route, Router, Routes},
-    hooks::{use_params_map, use_query_map},
+    hooks::{query_signal, use_params_map, use_query_map},
     path,
 };
 use std::panic::{catch_unwind, AssertUnwindSafe};
@@ -38,10 +38,12 @@ fn render_app(target: &str, nested: bool) -> String {
         let show = || {
             let params = use_params_map();
             let query = use_query_map();
+            let (q_sig, _set_q) = query_signal::<String>("q");
             move || {
                 let p = params.get();
                 let f = |k: &str| p.get(k).map(|v| hex(v.as_bytes())).unwrap_or_else(|| "none".into());
-                format!("[[{} {} {}]]", f("org"), f("id"), show_map(&query.get()))
+                let q = q_sig.get().map(|v| hex(v.as_bytes())).unwrap_or_else(|| "none".into());
+                format!("[[{} {} {} {}]]", f("org"), f("id"), show_map(&query.get()), q)
             }
         };
         if nested {
@@ -213,7 +215,7 @@ fn op(line: &str) -> String {
             let target = format!("/o/{s1}/u/{s2}");
             match catch_unwind(AssertUnwindSafe(|| render_app(&target, nested))) {
                 Ok(html) => match payload(&html).as_deref() {
-                    Some([org, id, _]) => {
+                    Some([org, id, _, _]) => {
                         let want = (hex(once_seg(&s1).as_bytes()), hex(once_seg(&s2).as_bytes()));
                         let v = if (org.as_str(), id.as_str()) == (want.0.as_str(), want.1.as_str()) { "ok" } else { "fail not-once" };
                         format!("ok {org} {id} ## {v}")
@@ -228,9 +230,22 @@ fn op(line: &str) -> String {
             let spec = once_decoded(raw_query(&t));
             match catch_unwind(AssertUnwindSafe(|| render_app(&t, false))) {
                 Ok(html) => match payload(&html).as_deref() {
-                    Some([_, _, got]) => {
-                        let v = if *got == show_groups(&spec) { "ok" } else { "fail double-decode" };
-                        format!("ok {got} ## {v}")
+                    Some([_, _, got, q]) => {
+                        // `query_signal::<String>("q")` hands out the (last) value of `q`, unchanged
+                        let want_q = spec
+                            .iter()
+                            .find(|g| g.0 == "q")
+                            .and_then(|g| g.1.last())
+                            .map(|v| hex(v.as_bytes()))
+                            .unwrap_or_else(|| "none".into());
+                        let v = if *got != show_groups(&spec) {
+                            "fail double-decode"
+                        } else if *q != want_q {
+                            "fail query-signal"
+                        } else {
+                            "ok"
+                        };
+                        format!("ok {got} q={q} ## {v}")
                     }
                     _ => "nomatch ## fail nomatch".into(),
                 },
@@ -373,9 +388,19 @@ fn gen(seed: u64, n: usize, path: &str) -> std::io::Result<()> {
                     if j > 0 {
                         q.push('&');
                     }
-                    q.push_str(&gen_str(&mut r, 2, &['#', '&', '=']));
+                    if r.chance(1, 2) {
+                        q.push('q');
+                    } else {
+                        q.push_str(&gen_str(&mut r, 2, &['#', '&', '=']));
+                    }
                     q.push('=');
+                    if r.chance(1, 3) {
+                        q.push_str(*r.pick(&["%20", "+", "%09", "%0A", "%C2%A0"]));
+                    }
                     q.push_str(&gen_str(&mut r, 4, &['#']));
+                    if r.chance(1, 3) {
+                        q.push_str(*r.pick(&["%20", "+", "%09", "%0A", "%C2%A0"]));
+                    }
                 }
                 writeln!(f, "hookquery {}", hex(format!("/p?{q}").as_bytes()))?
             }
